@@ -165,9 +165,14 @@ class LasData:
         LaspyException: if you try to remove an extra dimension that do not exist.
 
         """
+        names = list(names)
         extra_dimension_names = list(self.point_format.extra_dimension_names)
+        # a name given twice cannot be removed twice, it is rejected
+        # up front like an unknown name, before anything is modified
         not_extra_dimension = [
-            name for name in names if name not in extra_dimension_names
+            name
+            for i, name in enumerate(names)
+            if name not in extra_dimension_names or name in names[:i]
         ]
         if not_extra_dimension:
             raise errors.LaspyException(
